@@ -191,6 +191,22 @@ def handleRoute (req : Lean.Json) (id : String) : IO Unit := do
   let r := route ms (getStr req "defOut") (getStr req "defPkg") sid
   IO.println s!"{id}\tROUTE\t{canon (.str r.fileName)}\t{canon (.str r.pkg)}\t{canon (.str ((rootOverride ms sid).getD ""))}"
 
+/-- `cliroute`: the three flag maps as main.go parses them → the mapping main.go assembles for every mentioned id →
+    where the schema `schemaID` goes -/
+def handleCliRoute (req : Lean.Json) (id : String) : IO Unit := do
+  let pairs (k : String) : List (String × String) := match req.getObjVal? k with
+    | .ok (.arr a) => a.toList.filterMap fun p => match p with
+        | .arr #[.str x, .str y] => some (x, y)
+        | _ => none
+    | _ => []
+  let pkgs := pairs "pkgs"; let outs := pairs "outs"; let roots := pairs "roots"
+  let defPkg := getStr req "defPkg"; let defOut := getStr req "defOut"
+  let ids := ((pkgs ++ outs ++ roots).map (·.1)).eraseDups
+  let ms := ids.map (assembleMapping pkgs outs roots defPkg defOut)
+  let sid := getStr req "schemaID"
+  let r := route ms defOut defPkg sid
+  IO.println s!"{id}\tROUTE\t{canon (.str r.fileName)}\t{canon (.str r.pkg)}\t{canon (.str ((rootOverride ms sid).getD ""))}"
+
 def handle (line : String) : IO Unit := do
   match Lean.Json.parse line with
   | .error e => IO.println s!"?\tERR\t{e}"
@@ -204,6 +220,7 @@ def handle (line : String) : IO Unit := do
     | "ref" => handleRef req id
     | "spec" => handleSpec req id
     | "route" => handleRoute req id
+    | "cliroute" => handleCliRoute req id
     | other => IO.println s!"{id}\tERR\tunknown op {other}"
     IO.println s!"{id}\tEND"
 
